@@ -479,6 +479,20 @@ def run(rep, tier, seed, replay=None):
         ("bad-retries", ["query", "-g", "teamfortress2", "-i", "127.0.0.1", "--retries", "-1"]),
         ("missing-game", ["query", "-i", "127.0.0.1"]),
     ]
+    # unknown game names of every shape (text a user can type: empty, blank, case variants, near misses of real names,
+    # multi-byte characters at every byte offset, very long): a clean "unknown game" error for each
+    known = set(re.findall(r'"([a-z0-9]+)"\s*=>\s*game!\(', open(os.path.join(vlib.REPO, "crates/lib/src/games/definitions.rs")).read()))
+    rnd_u = random.Random(seed + 1919)
+    alphabet = ["a", "q", "3", "Z", "-", "_", " ", "é", "ä", "ñ", "Ö", "€", "日", "😀", "\u0301", "ß", "İ"]
+    unknown = ["", " ", "  x  ", "NOSUCHGAME", "teamfortress", "teamfortress22", "csg", "q3", "a" * 5000, "😀" * 700]
+    for head in ["", "a", "ab", "abc", "abcd", "é", "aé", "abé", "日", "a日", "q3ä", "cs€", "a😀", "ab😀", "abc😀", "ñé", "CSÖ", "İİ"]:
+        unknown.append(head + "".join(rnd_u.choice(alphabet) for _ in range(rnd_u.randrange(0, 6))))
+    for _ in range(20 if tier == "quick" else 300):
+        unknown.append("".join(rnd_u.choice(alphabet) for _ in range(rnd_u.randrange(1, 9))))
+    for i, g in enumerate(unknown):
+        if g in known or g.strip().lower() in known:
+            continue
+        bad.append((f"unknown-game-{i}", ["query", "-g", g, "-i", "127.0.0.1"]))
     for name, args in bad:
         try:
             rc, out, err = run_cli(args, timeout=60)
